@@ -279,12 +279,13 @@ var props = map[string]*propCfg{
 	},
 	"C13": {
 		ID: "C13", Level: "model_checking", Race: true,
-		Rule:        "Cache.tla: all interleavings of 3 goroutines x 2 selector texts through the cache protocol of ExecReader with map accesses as begin / end pairs (NoOverlap, OwnEntry, UnderLock, NoSelfDeadlock with a goroutine whose evaluation re-enters ExecReader to resolve a CTE, termination under fairness); the pinned read-after-unlock protocol must violate NoOverlap and holding the mutex during evaluation NoSelfDeadlock. CacheInd.tla: an inductive invariant of the protocol as coded (mutex held exactly between Lock and Unlock, open accesses = goroutines inside one, entries stay, nested calls only after Unlock) discharged by Apalache for 6 goroutines x 3 texts x every set of re-entrant goroutines - initiation, consecution over all IndInv states (reachable or not), and IndInv => the five invariants. Markers.tla (C11) adds RowsUntouched: a query writes nothing into the caller's rows at any time, which is what makes one document shareable. Binding: (T) the guarded hook in ExecReader reports every protocol step of every goroutine with the fact whether the cache mutex is held (TryLock); 2-8 free-running goroutines evaluate fresh and shared selector texts and the recorded sequence is validated against CacheTrace (lock only a free mutex, store / read only as holder, fact = held at every step). (X) 40 scenario classes - separate documents / one shared document; fresh / cached selector texts; filter, projection, select-list subquery, EXISTS, IN subquery, CTE, GROUP BY, ORDER BY, Wrapped, PARALLEL joins, ASYNC / SPINASYNC at top level, in a subquery and in a derived table, CTEs read through a path, one open-range selector text over arrays of different lengths, a lone * with and without ORDER BY / LIMIT / DISTINCT and an unaliased join on the shared document, and two cold classes (rounds of a RegisterImmediateFunction that has returned followed by concurrent first function calls, with the expectation written down instead of obtained from the library) - x 2..8 (thorough 2..16) goroutines x 60 (300) queries each, in a child process built with the race detector: every goroutine's result must equal the query's result when run alone, and a race report, a 'concurrent map' fatal error, a crash, a hang or a modified shared document is a violation. Non-trivial: every scenario run; distinct = distinct (scenario, goroutine count). Round 4 classes: one new statement text in every goroutine at the same time (USING joins, a WITH in front of a UNION), ASYNC / SPINASYNC calls whose arguments are subqueries, EXISTS inside the ON of PARALLEL joins.",
+		Rule:        "Cache.tla: all interleavings of 3 goroutines x 2 selector texts (and of 4 goroutines x 3 texts with two re-entrant ones, 104 301 states; thorough: 5 goroutines, 1 158 564 states) through the cache protocol of ExecReader with map accesses as begin / end pairs (NoOverlap, OwnEntry, UnderLock, NoSelfDeadlock with a goroutine whose evaluation re-enters ExecReader to resolve a CTE, termination under fairness); the pinned read-after-unlock protocol must violate NoOverlap and holding the mutex during evaluation NoSelfDeadlock. CacheInd.tla: an inductive invariant of the protocol as coded (mutex held exactly between Lock and Unlock, open accesses = goroutines inside one, entries stay, nested calls only after Unlock) discharged by Apalache for 6 goroutines x 3 texts x every set of re-entrant goroutines - initiation, consecution over all IndInv states (reachable or not), and IndInv => the five invariants. Markers.tla (C11) adds RowsUntouched: a query writes nothing into the caller's rows at any time, which is what makes one document shareable. Binding: (T) the guarded hook in ExecReader reports every protocol step of every goroutine with the fact whether the cache mutex is held (TryLock); 2-8 free-running goroutines evaluate fresh and shared selector texts and the recorded sequence is validated against CacheTrace (lock only a free mutex, store / read only as holder, fact = held at every step). (X) 40 scenario classes - separate documents / one shared document; fresh / cached selector texts; filter, projection, select-list subquery, EXISTS, IN subquery, CTE, GROUP BY, ORDER BY, Wrapped, PARALLEL joins, ASYNC / SPINASYNC at top level, in a subquery and in a derived table, CTEs read through a path, one open-range selector text over arrays of different lengths, a lone * with and without ORDER BY / LIMIT / DISTINCT and an unaliased join on the shared document, and two cold classes (rounds of a RegisterImmediateFunction that has returned followed by concurrent first function calls, with the expectation written down instead of obtained from the library) - x 2..8 (thorough 2..16) goroutines x 60 (300) queries each, in a child process built with the race detector: every goroutine's result must equal the query's result when run alone, and a race report, a 'concurrent map' fatal error, a crash, a hang or a modified shared document is a violation. Non-trivial: every scenario run; distinct = distinct (scenario, goroutine count). Round 4 classes: one new statement text in every goroutine at the same time (USING joins, a WITH in front of a UNION), ASYNC / SPINASYNC calls whose arguments are subqueries, EXISTS inside the ON of PARALLEL joins.",
 		Assumptions: append([]string{"the Go race detector and the process exit status are observation channels on the executions the scenario driver produces; races in code no scenario exercises are not seen", "goroutine schedules are those the Go scheduler produces during the runs (not enumerated)"}, baseAssumptions...),
 		Quick: []legCfg{
 			{Kind: "mc", Name: "cache", Module: "Cache", Cfg: "Cache_ok.cfg", Timeout: 5 * time.Minute, TLCWorkers: 4, NoExport: true},
 			{Kind: "mc", Name: "cache-dev", Module: "Cache", Cfg: "Cache_dev.cfg", Timeout: 5 * time.Minute, TLCWorkers: 1, NoExport: true, Expect: "NoOverlap"},
 			{Kind: "mc", Name: "cache-dev-eval", Module: "Cache", Cfg: "Cache_dev_evalunderlock.cfg", Timeout: 5 * time.Minute, TLCWorkers: 1, NoExport: true, Expect: "NoSelfDeadlock"},
+			{Kind: "mc", Name: "cache-big", Module: "Cache", Cfg: "Cache_big.cfg", Timeout: 5 * time.Minute, TLCWorkers: 8, NoExport: true},
 			{Kind: "apalache", Name: "cache-ind", Module: "CacheInd", TLCArgs: []string{"CInit", "CNext"}, Timeout: 5 * time.Minute},
 			{Kind: "mc", Name: "rows", Module: "Markers", Cfg: "Markers_ok.cfg", Timeout: 5 * time.Minute, TLCWorkers: 4, NoExport: true},
 			{Kind: "mc", Name: "rows-dev", Module: "Markers", Cfg: "Markers_dev_MarkerInCallerRow.cfg", Timeout: 5 * time.Minute, TLCWorkers: 1, NoExport: true, Expect: "RowsUntouched"},
@@ -295,6 +296,8 @@ var props = map[string]*propCfg{
 			{Kind: "mc", Name: "cache", Module: "Cache", Cfg: "Cache_ok.cfg", Timeout: 5 * time.Minute, TLCWorkers: 4, NoExport: true},
 			{Kind: "mc", Name: "cache-dev", Module: "Cache", Cfg: "Cache_dev.cfg", Timeout: 5 * time.Minute, TLCWorkers: 1, NoExport: true, Expect: "NoOverlap"},
 			{Kind: "mc", Name: "cache-dev-eval", Module: "Cache", Cfg: "Cache_dev_evalunderlock.cfg", Timeout: 5 * time.Minute, TLCWorkers: 1, NoExport: true, Expect: "NoSelfDeadlock"},
+			{Kind: "mc", Name: "cache-big", Module: "Cache", Cfg: "Cache_big.cfg", Timeout: 5 * time.Minute, TLCWorkers: 8, NoExport: true},
+			{Kind: "mc", Name: "cache-huge", Module: "Cache", Cfg: "Cache_huge.cfg", Timeout: 15 * time.Minute, TLCWorkers: 12, NoExport: true},
 			{Kind: "apalache", Name: "cache-ind", Module: "CacheInd", TLCArgs: []string{"CInit", "CNext"}, Timeout: 5 * time.Minute},
 			{Kind: "mc", Name: "rows", Module: "Markers", Cfg: "Markers_ok.cfg", Timeout: 5 * time.Minute, TLCWorkers: 4, NoExport: true},
 			{Kind: "mc", Name: "rows-dev", Module: "Markers", Cfg: "Markers_dev_MarkerInCallerRow.cfg", Timeout: 5 * time.Minute, TLCWorkers: 1, NoExport: true, Expect: "RowsUntouched"},
